@@ -22,12 +22,20 @@ LOW_JITTER_MS = 10     # a run whose 5 ms sleeps never overshot by more than thi
 EXTRA_SLACK = [0]      # set by settle() to ask "does the duration exceed the model by MUCH more than the slack?"
 
 
+def load_ms(o):
+    """how starved of CPU the harness process was while the case ran, in milliseconds of scheduling delay: the larger of
+    jitter_ms (largest overshoot of a goroutine sleeping 5 ms: wake-up latency) and 20 ms per unit of cpu_slowdown - 1
+    (wall / CPU time of a thread burning 2 ms of CPU: the scheduler serves sleepers promptly even when CPU-bound work --
+    TLS, JSON, 2 MB bodies -- crawls, so wake-up latency alone underestimates starvation).  ~0-3 on a quiet machine."""
+    return max(o.get("jitter_ms") or 0, 20.0 * max(0.0, (o.get("cpu_slowdown") or 1.0) - 1.0))
+
+
 def jitter_slack(o):
     """the harness measures, while each case runs, by how much a goroutine sleeping 5 ms overshoots (jitter_ms); a probe
     has a handful of such wake-ups (timer, netpoll, result hand-over), so the duration comparison with the MODEL grants
     three of them on top of the fixed slack -- nothing on a quiet machine, the starvation delay on a loaded one.  The
     property's own bound keeps its fixed slack."""
-    return int(3 * min(o.get("jitter_ms") or 0, 300))
+    return int(3 * min(load_ms(o), 300))
 CODES = {1: "outcome class differs from the model", 2: "the peer received other bytes than the model's greeting",
          3: "the record's address/port/version differ", 4: "Scan took longer than the model's logical duration + slack",
          105: "(info) Scan returned earlier than the model's logical duration"}
@@ -441,7 +449,7 @@ def settle(ctx, rows, tag):
     # " [timing xK]") and is judged like any other.
     def starved(i):
         o = rows[i]
-        return (o.get("jitter_ms") or 0) > LOW_JITTER_MS and (o["obs"] in (2, 6) or (o.get("e2e") and o["obs"] == 1))
+        return load_ms(o) > LOW_JITTER_MS and (o["obs"] in (2, 6) or (o.get("e2e") and o["obs"] == 1))
 
     stretch_base = {}
     for k in (4, 8):
@@ -473,7 +481,7 @@ def settle(ctx, rows, tag):
         for rnd in range(3):
             if not pending:
                 break
-            jit = max((rows[i].get("jitter_ms") or 0) for i in pending)
+            jit = max(load_ms(rows[i]) for i in pending)
             if jit > LOW_JITTER_MS:
                 time.sleep(min(4.0, 1.0 + jit / 50.0))
             if not redo(pending, "%s_quiet%d" % (tag, rnd), 2):
@@ -482,12 +490,12 @@ def settle(ctx, rows, tag):
             for i in still:
                 if not duration_only(i):
                     confirmed.add(i)           # something else than a duration is wrong now: keep it
-                elif (rows[i].get("jitter_ms") or 0) <= LOW_JITTER_MS:
+                elif load_ms(rows[i]) <= LOW_JITTER_MS:
                     confirmed.add(i)           # persists in a quiet window
             # wide-margin test for the rest
             rest = [i for i in still if i not in confirmed]
             if rest:
-                EXTRA_SLACK[0] = 250 + int(9 * max((rows[i].get("jitter_ms") or 0) for i in rest))
+                EXTRA_SLACK[0] = 250 + int(9 * max(load_ms(rows[i]) for i in rest))
                 try:
                     sub = evaluate(ctx, [rows[i] for i in rest], "%s_wide%d" % (tag, rnd), 2)
                 finally:
@@ -509,7 +517,7 @@ def settle(ctx, rows, tag):
         if dropped:
             ctx.info.append("%d duration comparisons were inconclusive because of CPU starvation (scheduling jitter up to "
                             "%.0f ms in every re-run) and are not counted: cases %s" % (
-                                len(dropped), max((rows[i].get("jitter_ms") or 0) for i in dropped),
+                                len(dropped), max(load_ms(rows[i]) for i in dropped),
                                 [rows[i]["id"] for i in dropped][:10]))
     return rows, {i: hard(i) for i in bad if hard(i)}, sum(1 for cs in bad.values() if 105 in cs)
 
